@@ -51,6 +51,27 @@ _CMP = {"Lt": ("Lt", False, False), "LtE": ("LtE", False, False),
         "In": ("In", False, False), "NotIn": ("In", False, True)}
 _SYMM = {"Eq", "Is"}
 _COMM = {"BitOr", "BitAnd", "BitXor", "Mult"}
+# calls whose value depends only on their arguments (builtins, and functions
+# of rig confirmed pure by reading them); every other call is tagged with its
+# call site so that two evaluations are never identified
+PURE = {
+    "len", "set", "frozenset", "list", "tuple", "dict", "sorted", "reversed",
+    "min", "max", "sum", "any", "all", "abs", "int", "float", "bool", "str",
+    "bytes", "range", "xrange", "enumerate", "zip", "isinstance", "issubclass",
+    "type", "iter", "divmod", "round", "pow", "ord", "chr", "repr", "hash",
+    "getattr", "hasattr", "callable", "map", "filter", "slice", "bin", "hex",
+    "id", "format", "calcsize", "pack", "unpack", "unpack_from", "ceil",
+    "floor", "log", "sqrt", "exp",
+    # rig
+    "intersect", "_get_generality", "get_generality", "subtract_resources",
+    "add_resources", "overallocated", "resources_after_reservation",
+    "_is_defaultable", "to_xyz", "minimise_xyz", "shortest_mesh_path_length",
+    "shortest_mesh_path", "shortest_torus_path_length", "get_common_xs",
+    "RoutingTableEntry", "InOutPair", "Routes", "Links", "core",
+    "get_region_for_chip", "unpack_routing_table_entry", "_identity",
+    "ordered_covering", "remove_default_routes", "remove_default_entries",
+    "build_routing_table_target_lengths", "_get_insertion_index",
+}
 _MUTABLE_CTORS = {"set", "list", "dict", "deque", "defaultdict",
                   "OrderedDict", "bytearray", "Counter"}
 _ITEMS = {"iteritems": "items", "items": "items", "viewitems": "items",
@@ -80,7 +101,8 @@ class _Bind(object):
 
 
 class Terms(object):
-    def __init__(self, fn, helpers=None, flow=None, outer=None, hyps=()):
+    def __init__(self, fn, helpers=None, flow=None, outer=None, hyps=(),
+                 pure=()):
         """helpers: name -> FunctionDef of functions that may be inlined when
         called by that (last-component) name; outer: (Terms, node) of the
         enclosing function when ``fn`` is a nested def (free names resolve
@@ -89,6 +111,7 @@ class Terms(object):
         self.flow = flow or Flow(fn)
         self.cfg = self.flow.cfg
         self.helpers = dict(helpers or {})
+        self.pure = set(pure)
         self.outer = outer
         self.binds = []
         self.node_binds = {}
@@ -112,7 +135,8 @@ class Terms(object):
         conditional expressions on a decided condition reduce to the taken
         branch."""
         return Terms(self.fn, helpers=self.helpers, flow=self.flow,
-                     outer=self.outer, hyps=list(self.hyps) + list(hyps))
+                     outer=self.outer, hyps=list(self.hyps) + list(hyps),
+                     pure=self.pure)
 
     def _assume(self, hyps):
         hyps = [(t, bool(p)) for t, p in hyps]
@@ -190,7 +214,7 @@ class Terms(object):
         for k in call.keywords:
             sub[k.arg] = host.term(k.value, node)
         outer = (host if host is self else host.t, node)
-        t = Terms(nested, helpers=self.helpers, outer=outer)
+        t = Terms(nested, helpers=self.helpers, outer=outer, pure=self.pure)
         return _Inner(t, sub, call, host)
 
     def search_loop(self):
@@ -888,7 +912,11 @@ class Terms(object):
             return inl
         if ft[0] == "global" and ft[1].rsplit(".", 1)[-1] in _MUTABLE_CTORS:
             return ("new", self._site(e), ("call", ft, args, kws))
-        return ("call", ft, args, kws)
+        last = ft[1].rsplit(".", 1)[-1] if ft[0] in ("global", "local") \
+            else (ft[2] if ft[0] == "attr" else None)
+        if last in PURE or last in self.pure:
+            return ("call", ft, args, kws)
+        return ("callv", ft, args, kws, self._site(e))
 
     def _site(self, e):
         return "%s:%s" % (getattr(e, "lineno", 0), getattr(e, "col_offset",
@@ -930,7 +958,8 @@ class Terms(object):
         try:
             outer = (self, node) if callee.name in self._nested and \
                 self._nested[callee.name] is callee else None
-            ct = Terms(callee, helpers=self.helpers, outer=outer)
+            ct = Terms(callee, helpers=self.helpers, outer=outer,
+                       pure=self.pure)
             for i, nm in enumerate(names):
                 if nm not in sub:
                     if i >= dn:
@@ -1013,7 +1042,7 @@ def _HypInner(t, sub, host, hyps):
                     return v
             return Terms._decided(self, term)
     return H(t.fn, helpers=t.helpers, flow=t.flow, outer=t.outer,
-             hyps=list(hyps))
+             hyps=list(hyps), pure=t.pure)
 
 
 def _enclosing_fn(n):
@@ -1111,6 +1140,22 @@ def mk_cmp(opn, a, b):
 
 def is_none(t):
     return mk_cmp("Is", t, ("const", None))
+
+
+def plain(t):
+    """The term without allocation sites and without the versions of
+    attribute reads (structure only)."""
+    if not isinstance(t, tuple):
+        return t
+    if t and t[0] == "new":
+        return plain(t[2])
+    if t and t[0] == "attrv":
+        return ("attr", plain(t[1]), t[2])
+    if t and t[0] == "callv":
+        return ("call",) + tuple(plain(x) for x in t[1:4])
+    if t and t[0] == "const":
+        return t
+    return tuple(plain(x) for x in t)
 
 
 def _retarget(q):
@@ -1238,7 +1283,7 @@ def reify(t):
         return reify(t[2])
     if k == "list":
         return ast.List(elts=[reify(x) for x in t[1:]], ctx=ast.Load())
-    if k == "call":
+    if k in ("call", "callv"):
         return ast.Call(func=reify(t[1]), args=[reify(x) for x in t[2]],
                         keywords=[ast.keyword(arg=a, value=reify(b))
                                   for a, b in t[3]])
@@ -1306,7 +1351,7 @@ def show(t):
         return "%s#%d" % (show(t[1]), t[2])
     if k in ("items", "values", "keys"):
         return "%s.%s()" % (show(t[1]), k)
-    if k == "call":
+    if k in ("call", "callv"):
         return "%s(%s)" % (show(t[1]), ", ".join(
             [show(x) for x in t[2]] + ["%s=%s" % (a, show(b))
                                        for a, b in t[3]]))
